@@ -14,7 +14,7 @@ import (
 func init() {
 	register(&explore.Prop{
 		ID: "C07", Level: levelMC, Explorer: "E1 input-space enumerator + E2 path mode (visit orders with one reader)",
-		Rule: "DV-S (<=3 docs; per doc every subset of {x,y,\"\"} in doc-value field b, d in {absent,x}, a in {absent,y}) built and self-merged: readers on every ordered subset of {a,b,d,unknown} x every visiting order of length <=3 with one reader; DV-C (1023..1026, 2047..2049 docs x 8 placement patterns: empty chunk, only last doc of a chunk, ...) built / loaded / merged with renumbering across the 1024 boundary: every order of length <=3 (thorough <=4) over the documents of interest {0,1,1023,1024,1025,2047,2048,last} and every order of length 4..5 over {0,1024,last}; MIX batches; merges of segments with inconsistent doc-value flags (per-source oracle); " +
+		Rule: "DV-S (<=3 docs; per doc every subset of {x,y,\"\"} in doc-value field b, d in {absent,x}, a in {absent,y}) built and self-merged: readers on every ordered subset of {a,b,d,unknown} x every visiting order of length <=3 with one reader (each order also after a warm-up visit: the reader's first call does not carry state over); DV-C (1023..1026, 2047..2049 docs x 8 placement patterns: empty chunk, only last doc of a chunk, ...) built / loaded / merged with renumbering across the 1024 boundary: every order of length <=3 (thorough <=4) over the documents of interest {0,1,1023,1024,1025,2047,2048,last} and every order of length 4..5 over {0,1024,last}; MIX batches; merges of segments with inconsistent doc-value flags (per-source oracle); " +
 			"distinct = (segment, form, field list, visit order); non-trivial = some visit returns >=1 term; counters.cross_chunk_or_backward = orders with consecutive visits in different chunks or backwards",
 		Assumptions: commonAssumptions, Budget: qBudget, Run: runC07,
 	})
@@ -34,7 +34,24 @@ func dvExpected(want *model.LSeg, doc uint64, fields []string) []model.KV {
 }
 
 // runDVSeq opens one reader on fields and visits docs in order; returns the first mismatch.
+// runDVSeq visits the documents of order with ONE reader, twice: as given, and after a warm-up
+// visit of the order's first document. (ice discards the per-field reader state built by a
+// reader's very FIRST call - its visit state has no segment yet and is rebuilt on the second call -
+// so without the warm-up an order of n visits exercises carried-over state for n-1 of them only.)
 func runDVSeq(seg segment.Segment, want *model.LSeg, fields []string, order []uint64) (bad string, any bool) {
+	bad, any = runDVSeq1(seg, want, fields, order)
+	if bad != "" || len(order) == 0 {
+		return bad, any
+	}
+	warmed := append([]uint64{order[0]}, order...)
+	bad, _ = runDVSeq1(seg, want, fields, warmed)
+	if bad != "" {
+		bad += " [after a warm-up visit]"
+	}
+	return bad, any
+}
+
+func runDVSeq1(seg segment.Segment, want *model.LSeg, fields []string, order []uint64) (bad string, any bool) {
 	var rd segment.DocumentValueReader
 	var err error
 	msg := explore.Guard(func() { rd, err = seg.DocumentValueReader(fields) })
